@@ -1,7 +1,8 @@
 (* Tactics used by the generated correspondence cases of C08 (coq/Cases/, never committed). *)
 From Coq Require Import Reals Bool Lra.
+From Coquelicot Require Import Coquelicot.
 From Interval Require Import Tactic.
-From SpdVerif Require Import Base.Rx Gen.Efficiencies.
+From SpdVerif Require Import Base.Rx Gen.Efficiencies Spec.Overlap Proofs.C08_overlap.
 Local Open Scope R_scope.
 
 Ltac decide_eqs :=
@@ -16,3 +17,6 @@ Ltac decide_eqs :=
 Ltac case_eff :=
   unfold efficiencies_from_counts; cbn [eff_symmetric eff_signal eff_idler]; decide_eqs;
   repeat split; first [reflexivity | (unfold Rdiv; ring) | interval with (i_prec 80)].
+
+(* the oracle's value of the walk-off factor F against the Spec definition (a Riemann integral), by verified quadrature *)
+Ltac case_F := rewrite F_walkoff_eq by lra; integral with (i_fuel 400, i_prec 60).
